@@ -508,3 +508,40 @@ Definition program_parse (core : ctxspec) (tasks : list ctxspec) (argv : list st
           end
       end
   end.
+
+(** ** Program.parse_core: what happens between the two passes
+
+    After the core pass and BEFORE the task pass [Program.parse_core] acts on
+    some core values: --write-pyc, --debug (enable_logging), and two early
+    exits -- --version (print the version, Exit) and --print-completion-script
+    (print the script, Exit); [parse_collection] then uses --collection /
+    --search-root.  Core flags seen later inside task contexts are merged by
+    [_update_core_context] only after all that.  [program_outline] records
+    which way a run goes. *)
+Inductive outline :=
+| OVersionExit                       (* version printed, nothing runs *)
+| OCompletionExit                    (* completion script printed, nothing runs *)
+| ORunTasks (r : program_result).    (* both passes done: tasks would be executed *)
+
+Definition core_value (args : list rarg) (name : string) : aval :=
+  match find (fun r => String.eqb (arg_name (r_spec r)) name) args with
+  | Some r => arg_value r
+  | None => ANone
+  end.
+
+Definition program_outline (core : ctxspec) (tasks : list ctxspec) (argv : list string)
+  : result outline :=
+  match parser_parse [] (Some core) true argv with
+  | Err e => Err e
+  | Ok r1 =>
+      match pr_ctxs r1 with
+      | [] => Err EOther
+      | c0 :: _ =>
+          if py_truthy (core_value (rc_args c0) "version") then Ok OVersionExit
+          else if py_truthy (core_value (rc_args c0) "print-completion-script") then Ok OCompletionExit
+          else match program_parse core tasks argv with
+               | Ok r => Ok (ORunTasks r)
+               | Err e => Err e
+               end
+      end
+  end.
